@@ -18,6 +18,13 @@ CANARY_RESP = scen.response(b'canary', b'CANARY-BODY')
 def _canary_step(state, env, i):
     """The well-behaved connection's script, driven once per executor iteration."""
     cs = state['cs']
+    if state.get('role') in ('web', 'webws'):
+        # web-server worker: a keep-alive client of a route, one request now and a follow-up request two iterations later
+        if i == 0:
+            cs.inq.append(b'GET /hello/c1 HTTP/1.1\r\nHost: x\r\n\r\n')
+        elif i == 2 and not cs.closed:
+            cs.inq.append(b'GET /hello/c2 HTTP/1.1\r\nHost: x\r\n\r\n')
+        return
     if i == 0:
         cs.inq.append(CANARY_REQ)
     us = state.get('us')
@@ -33,7 +40,7 @@ def _canary_step(state, env, i):
 def _canary_alone(role, k):
     env = envkit.new_env()
     xk = envkit.Executor(scen.FLAGS[role], env)
-    st = {'cs': xk.accept('canary')}
+    st = {'cs': xk.accept('canary'), 'role': role}
     for i in range(k):
         _canary_step(st, env, i)
         e = xk.step()
@@ -127,9 +134,26 @@ def isolate(b0: int, b1: int, b2: int, cab: int, uab: int, when: int) -> bool:
         env = envkit.new_env()
         env.fd_reuse = bool(CFG.get('fd_reuse'))
         xk = envkit.Executor(scen.FLAGS[role], env)
-        cst = {'cs': xk.accept('canary')}
+        cst = {'cs': xk.accept('canary'), 'role': role}
         closer = xk.accept('closer', ('10.7.7.7', 7)) if closer_on == 'before' else None
-        adv = xk.accept('adversary', ('10.6.6.6', 666))
+        admit = CFG.get('admit_fault')
+        if admit:
+            # TLS-terminating listener: the adversary's handshake fails in this way while its connection is being admitted
+            import ssl as _ssl
+            env.wrap_faults['adversary'] = {
+                'sslerror': _ssl.SSLError(1, '[SSL: WRONG_VERSION_NUMBER] wrong version number'),
+                'reset': ConnectionResetError(errno.ECONNRESET, 'Connection reset by peer'),
+                'eof': _ssl.SSLEOFError(8, 'EOF occurred in violation of protocol'),
+                'timeout': TimeoutError(errno.ETIMEDOUT, 'timed out'),
+                'oserror': OSError(errno.EIO, 'io'),
+                'value': ValueError('attempt to connect already-connected SSLSocket!'),
+            }[admit]
+        admit_exc = None
+        try:
+            adv = xk.accept('adversary', ('10.6.6.6', 666))
+        except Exception as e:      # noqa
+            admit_exc = e
+            adv = env.sockets[-1]
         if closer_on == 'after':
             closer = xk.accept('closer', ('10.7.7.7', 7))
         if closer is not None:
@@ -138,6 +162,10 @@ def isolate(b0: int, b1: int, b2: int, cab: int, uab: int, when: int) -> bool:
         def factory(addr):
             return env.sock('up:' + addr[0])
         env.upstream_factory = factory
+    if admit_exc is not None:
+        return fail('exception escaped the executor while admitting a connection: every connection of this worker is dead', exc=repr(admit_exc))
+    if admit and (adv.fd in xk.ex.works or not adv.closed):
+        return fail('connection whose admission failed is still open / known to the executor', closed=adv.closed)
     # the adversary's connect outcome is decided by the connect stub per target host
     outcome = {'ok': None, 'refused': ConnectionRefusedError(errno.ECONNREFUSED, 'refused'),
                'timeout': TimeoutError(errno.ETIMEDOUT, 'timed out'), 'gaierror': socket.gaierror(-2, 'Name or service not known'),
@@ -154,7 +182,9 @@ def isolate(b0: int, b1: int, b2: int, cab: int, uab: int, when: int) -> bool:
     # multi-byte UTF-8 / delimiter contexts are present without multiplying the paths
     b1 = CFG.get('b1', 0x61)
     b2 = CFG.get('b2', 0x62)
-    if tpl in ('ws', 'ws_ctl'):
+    if admit:
+        pass
+    elif tpl in ('ws', 'ws_ctl'):
         adv.inq.append(scen.WS_HANDSHAKE)
     elif adv_at == 0:
         adv.inq.append(adversary_bytes(tpl, [b0, b1, b2]))
@@ -207,12 +237,12 @@ def isolate(b0: int, b1: int, b2: int, cab: int, uab: int, when: int) -> bool:
             return fail('a connection that asked to be torn down is still known to the executor')
     # a connection accepted afterwards is still served
     late = xk.accept('late')
-    late.inq.append(b'GET http://late.example/ HTTP/1.1\r\n\r\n' if role in ('forward', 'all') else b'GET /hello HTTP/1.1\r\nHost: x\r\n\r\n')
+    late.inq.append(b'GET http://late.example/ HTTP/1.1\r\n\r\n' if role in ('forward', 'all', 'forward_tls') else b'GET /hello HTTP/1.1\r\nHost: x\r\n\r\n')
     for j in range(2):
         exc = xk.step()
         if exc is not None:
             return fail('executor loop dead for a later connection', exc=repr(exc))
-    if role in ('forward', 'all'):
+    if role in ('forward', 'all', 'forward_tls'):
         if not any(a[0] == 'late.example' for a, s in env.connects):
             return fail('later connection not served')
     elif role in ('web', 'webws'):
@@ -226,7 +256,7 @@ def obligations(tier):
     T = 300
 
     def add(name, **cfg):
-        cfg.setdefault('k', 3)
+        cfg.setdefault('k', 4 if cfg.get('role') in ('web', 'webws') else 3)      # web canary: the follow-up's answer needs a 4th iteration
         obs.append({'name': name, 'fn': 'isolate', 'cfg': cfg, 'timeout': T})
         if cfg.get('cab') in (0, 1) and cfg.get('connect', 'ok') == 'ok' and not cfg.get('second') and cfg.get('uab', 0) == 0:
             c2 = dict(cfg)
@@ -255,6 +285,9 @@ def obligations(tier):
         for uab in (1, 2):
             add('fdreuse.%s.uab%d' % (tpl, uab), role='forward', tpl=tpl, cab=0, uab=uab, when=2, answer=True, fd_reuse=True, adv_stall=True)
             add('fdreuse.%s.uab%d.k4' % (tpl, uab), role='forward', tpl=tpl, cab=0, uab=uab, when=2, answer=True, fd_reuse=True, adv_stall=True, k=4)
+    # TLS-terminating listener: the handshake of a connection being admitted fails (the canary and the late connection handshake fine)
+    for kind in ('sslerror', 'reset', 'eof', 'timeout', 'oserror', 'value'):
+        add('admit.tls.%s' % kind, role='forward_tls', tpl='fwd_path', cab=0, uab=0, when=1, admit_fault=kind)
     # websocket route: arbitrary / truncated frame bytes after the handshake
     for tpl in ('ws', 'ws_ctl'):
         for cab in (0, 1, 2):
@@ -290,7 +323,7 @@ META = {
                  '(path, host, User-Agent, method, CONNECT host, raw, web path, reverse-proxy route, truncated) in forward / web / reverse roles; '
                  'client-side abort in {none, EOF, reset, EIO on recv, EPIPE on send}; upstream connect outcome in {ok, refused, timeout, '
                  'resolution failure, unreachable}; upstream abort in {EOF, reset, EIO, timeout} before/after answering; a second keep-alive '
-                 'request on web/reverse connections; a websocket route: handshake followed by a frame with an arbitrary length/mask byte '
+                 'request on web/reverse connections; a TLS-terminating listener on which the adversary\'s handshake fails at admission in 6 ways; a websocket route: handshake followed by a frame with an arbitrary length/mask byte '
                  '(truncated frames) or an arbitrary opcode byte; descriptor numbers reused lowest-first while an adversary that never drains its response loses its upstream; a call-count watchdog on the parser/frame/socket primitives turns a loop '
                  'that makes no progress into a reported stall',
         'thorough': 'the same with 4 iterations',
